@@ -430,7 +430,8 @@ impl LedgerCheck {
         }
         if let TransactionResult::Commit(c) = &receipt.result {
             if self.wants("c03") {
-                c03_conservation(&ctx.node.db, c)?;
+                // for C04 the per-commit deltas are the inductive step of "supply == sum of vaults"
+                c03_conservation(&ctx.node.db, c).map_err(|(m, d)| if self.id == "C04" { (m.replace("c03.", "c04.delta_"), d) } else { (m, d) })?;
             }
             if self.wants("c02") && class == 2 && !system {
                 let allowed = self.fee_vaults(step, ctx);
